@@ -86,6 +86,29 @@ def removed_axes(x, axis):
     return tuple(a for a in keep if a is not None), rem
 
 
+def sanitizer_of(mask, base_text):
+    """True when `mask` is a boolean mask selecting the entries of `base_text` that are not the NOSITE marker."""
+    if mask is None:
+        return False
+    c = mask.cmp
+    if c is None and mask.red is not None and mask.red[0] in ('all',) and mask.red[1] is not None:
+        c = mask.red[1].cmp
+    if c is None and mask.cmp_src is not None:
+        c = mask.cmp_src
+    if c is None:
+        return False
+    o, l, r, lt, rt = c
+    if base_text is not None and lt != base_text:
+        return False
+    if o == '!=' and (r.nosite_marker or (has_const(r) and cval(r) == -1)):
+        return True
+    if o == '>=' and has_const(r) and cval(r) == 0:
+        return True
+    if o == '>' and has_const(r) and cval(r) == -1:
+        return True
+    return False
+
+
 class NumpyModel:
     # ------------------------------------------------------------------ operators
     def binop(self, interp, st, op, l, r, node):
@@ -600,6 +623,14 @@ class NumpyModel:
         for it in items:
             if it.idx is not None and it.idx[0] == 'FRAME':
                 out = out.w(at=it.at if it.at is not None else 0, by_frame=True)
+        # NOSITE sanitiser: x[(x != NOSITE)...] / x[x >= 0]
+        btext = norm_text(node.value) if isinstance(node, ast.Subscript) else None
+        for it in items:
+            if sanitizer_of(it, btext):
+                if out.idx is not None and out.idx[0] == 'SITE':
+                    out = out.w(idx=('SITE', False), sanitized_by=True)
+                if out.colvals:
+                    out = out.w(colvals=[c.w(idx=('SITE', False)) if (c.idx is not None and c.idx[0] == 'SITE') else c for c in out.colvals])
         # emptiness: x[:-1] of maybe-empty stays maybe-empty; x[mask] may be empty
         if base.maybe_empty or any(it.dtype == 'bool' for it in items):
             out = out.w(maybe_empty=True)
